@@ -975,6 +975,23 @@ func (e *Env) call(x *ECall) Term {
 		return Term{S: sx("select", vc.get(e.st, arg0Var(a.T), "(Array Int "+sort+")"), a.S), Sort: sort, T: pt}
 	case "val":
 		return e.value(e.tr(x.Args[0]))
+	case "local":
+		// local(name, default): the local variable of that name if the function has one in scope, else the
+		// default -- for auxiliary flags a loop invariant has to mention where they exist (`exit`, `found`)
+		// and that an equivalent formulation of the loop does without
+		if len(x.Args) != 2 {
+			e.fail("local(name, default) takes two arguments")
+		}
+		if id, ok := x.Args[0].(*EIdent); ok {
+			if _, bound := e.vars[id.Name]; bound {
+				return e.tr(x.Args[0])
+			}
+			if _, bound := e.vars["&"+id.Name]; bound {
+				return e.tr(x.Args[0])
+			}
+			return e.tr(x.Args[1])
+		}
+		e.fail("local(name, default): the first argument is a variable name")
 	case "max", "min":
 		a := e.tr(x.Args[0])
 		b := e.tr(x.Args[1])
